@@ -256,6 +256,7 @@ func New(
 
 	// <sunrise>
 	app.SwapKeeper.TransferKeeper = &app.TransferKeeper
+	app.SwapKeeper.IbcKeeperFn = func() *ibckeeper.Keeper { return app.IBCKeeper }
 	// </sunrise>
 
 	// register streaming services
